@@ -240,6 +240,12 @@ def check_attr(A, rep):
             else:
                 brs = [n for n in live(g) if n.kind == "branch" and len(n.stack) == 1]
                 conds[a] = [show(n["cond"]).replace("$" + params[0], "$K") for n in brs]
+                prefixes = [x.args[2][0].args[0] for n in brs for x in n["cond"].walk() if x.kind == "call" and x.args[0] == "startswith" and x.args[2] and x.args[2][0].kind == "const"]
+                if prefixes and all(p_ == "__" for p_ in prefixes):
+                    rep.ok("C18.d", f"C18.d {c.name}.{a}: only protected names and dunders ('__' prefix) address the object itself")
+                else:
+                    rep.fail("C18.d", norm_key("C18.d", f.qualname, "prefix"),
+                             f"{f.qualname} routes names with prefix {prefixes} to the object instead of the data (only protected names and dunders, prefix '__', may): such keys are never stored or saved", [f.loc], g.label)
         if conds.get("__setattr__") == conds.get("__delattr__") and conds.get("__setattr__"):
             rep.ok("C18.d", f"C18.d {c.name}: __setattr__ and __delattr__ use the same routing predicate")
         else:
